@@ -85,6 +85,11 @@ pub fn insert(cache: &Path, key: &str, opts: WriteOpts) -> Result<Integrity> {
         raw_metadata: opts.raw_metadata,
     })
     .with_context(|| format!("Failed to serialize entry with key `{key}`"))?;
+    // The readers parse records under serde_json's recursion limit: a record
+    // they cannot read back (metadata nested too deeply) would be skipped,
+    // silently losing this entry and letting an older one resurface.
+    serde_json::from_str::<SerializableMetadata>(&stringified)
+        .with_context(|| format!("Entry with key `{key}` could not be read back from the index"))?;
 
     let mut buck = OpenOptions::new()
         .create(true)
@@ -124,6 +129,11 @@ pub async fn insert_async<'a>(cache: &'a Path, key: &'a str, opts: WriteOpts) ->
         raw_metadata: opts.raw_metadata,
     })
     .with_context(|| format!("Failed to serialize entry with key `{key}`"))?;
+    // The readers parse records under serde_json's recursion limit: a record
+    // they cannot read back (metadata nested too deeply) would be skipped,
+    // silently losing this entry and letting an older one resurface.
+    serde_json::from_str::<SerializableMetadata>(&stringified)
+        .with_context(|| format!("Entry with key `{key}` could not be read back from the index"))?;
 
     let mut buck = crate::async_lib::OpenOptions::new()
         .create(true)
